@@ -26,7 +26,7 @@ valid = eqncases.valid
 def generate(seed, tier):
     S = core.Streams(seed)
     rng = S['topology']
-    T = S['knobs'].randint(1, 8)
+    T = S['knobs'].randint(1, 12 if tier == 'thorough' else 8)
     block, meta = gen_block(rng, 'contractive', T=T, n=rng.randint(1, 6), rich=True,
                             tol_text=S['knobs'].choice([None, None, '1e-6', '1e-10']))
     if S['swarm'].random() < 0.03:
